@@ -184,6 +184,30 @@ let run clause_prefix path =
   L.iter (fun k ->
     incr cases;
     let items = Array.of_list (L.rev_map snd !(Hashtbl.find scns k)) in
+    (* clause scanners over the observed sequence alone (TraceScan.v): they judge the trace even
+       when the monitor does not accept it *)
+    let evs = L.filter_map (function Ev (q, _, e) -> Some (q, e) | Mark _ -> None) (Array.to_list items) in
+    let prefix_fail (ok : C.event list -> bool) =
+      let rec go acc = function
+        | [] -> None
+        | (q, e) :: rest -> let acc' = acc @ [e] in if ok acc' then go acc' rest else Some q in
+      go [] evs in
+    let all_events = L.map snd evs in
+    if not (TraceScan.scan_sbs [] all_events) then begin
+      let q = match prefix_fail (fun l -> TraceScan.scan_sbs [] l) with Some q -> q | None -> "?" in
+      Printf.printf "propfail %s store_before_send seq=%s publish_sent_before_saved (trace scan)\n" k q end;
+    (match TraceScan.scan_pubrec TraceScan.XInit all_events with
+     | None ->
+       let q = match prefix_fail (fun l -> TraceScan.scan_pubrec TraceScan.XInit l <> None) with Some q -> q | None -> "?" in
+       Printf.printf "propfail %s kept_until_acked seq=%s pubrec_not_followed_by_pubrel (trace scan)\n" k q
+     | Some (TraceScan.XSave id | TraceScan.XTx id) when Hashtbl.find_opt ends k = Some "quiescent" ->
+       Printf.printf "propfail %s kept_until_acked seq=end pubrec_unanswered id=%s (trace scan)\n" k (string_of_n id)
+     | _ -> ());
+    if Hashtbl.find_opt ends k = Some "quiescent" then begin
+      match TraceScan.unresolved [] all_events with
+      | [] -> ()
+      | l -> Printf.printf "propfail %s future_total seq=end future_unresolved_after_close calls=%s (trace scan)\n" k
+               (S.concat "," (L.map string_of_n l)) end;
     let (r, deepest, dstate, exhausted) = run_scenario items in
     match r with
     | None ->
